@@ -253,7 +253,7 @@ def fam_fields(seed, tier):
                 d["%s_%s_none" % (side, f)] = rnd.random() < 0.2
                 d["%s_%s" % (side, f)] = rnd.choice(ev)
             d["%s_version" % side] = rnd.choice([0, 7, 99])
-            d["%s_name" % side] = rnd.randrange(3)
+            d["%s_name" % side] = rnd.randrange(2)
         if rnd.random() < 0.5:           # equal operands must occur often
             for k in list(d):
                 if k.startswith("b_"):
@@ -264,7 +264,7 @@ def fam_fields(seed, tier):
 @proof("C12/identifier.fields-predicates-equality",
        functions=[(MOD, "ConfigId.__init__"), (MOD, "ConfigId.is_device_settings"),
                   (MOD, "ConfigId.is_baltech_naming_scheme"), (MOD, "ConfigId.__eq__"), (MOD, "ConfigId.__ne__")],
-       family=fam_fields)
+       family=fam_fields, shards=14)
 def identifier_fields(vc):
     """contract of the identifier OBJECT for every integer field value (the text form and the settings decoders rely on
     it): 9999 is stored as None and every other value as is; 'Baltech naming scheme' iff a customer number is stored;
@@ -272,7 +272,7 @@ def identifier_fields(vc):
     negation, and an identifier never equals a non-identifier."""
     M = vc.module(MOD)
     C = M.ConfigId
-    NAMES3 = [None, "name", "other"]
+    NAMES3 = [None, "name"]          # two different non-empty names: ground clause at the end
 
     def operand(side):
         args = {}
@@ -339,6 +339,8 @@ def identifier_fields(vc):
     vc.prove("!=<=>not==", vc.Or(vc.And(ne.value, vc.Not(eq.value)), vc.And(vc.Not(ne.value), eq.value)))
     other = vc.call(lambda: a == "12345-0001-0002-03")
     vc.prove("never-equal-to-a-non-identifier", other.returned and other.value is False)
+    two = vc.call(lambda: (C(1, 2, 3, 4, "name") == C(1, 2, 3, 4, "other"), C(1, 2, 3, 4, "name") != C(1, 2, 3, 4, "other")))
+    vc.prove("different-names-differ", two.returned and two.value == (False, True))
     vc.cover("compared")
 
 
